@@ -754,6 +754,11 @@ CoreProbes ==
          << [id |-> "full-minus",  m |-> FsMatches(TRUE, Plain(minus))],
             [id |-> "typed-wrong", m |-> FsMatches(TRUE, WrongAt(Typed(rels), Len(rels)))],
             [id |-> "sub-wrong",   m |-> FsMatches(FALSE, WrongAt(Typed(one), 1))] >>)
+     \* a file name that occurs twice in the condition, NOT next to each other: all its matchers apply (&&)
+     \o (IF Cardinality(F) < 2 THEN <<>> ELSE
+         LET last == Rels({Greatest(F)}) IN
+         << [id |-> "repeat-split",       m |-> FsMatches(FALSE, Typed(one) \o Typed(last) \o Typed(one))],
+            [id |-> "repeat-split-wrong", m |-> FsMatches(FALSE, WrongAt(Typed(one), 1) \o Typed(last) \o Typed(one))] >>)
      \o [i \in 1..Len(Quants) |-> [id |-> "every", m |-> FsEvery(Quants[i])]]
      \o [i \in 1..Len(Quants) |-> [id |-> "any", m |-> FsAny(Quants[i])]]
 
@@ -845,8 +850,8 @@ WrapsDefined ==
 \* (also: num-files counts them, is-empty means there is none)
 FixedVerdict(id) ==
   CASE id \in {"full", "sub", "typed", "typed-sub", "num", "full/B", "sub/B", "num/B", "num-and-num", "num-and-full",
-               "plus-or-num"} -> "T"
-    [] id \in {"full-plus", "full-minus", "sub-absent", "typed-wrong", "sub-wrong", "num-plus", "num-ge", "num-and-plus",
+               "plus-or-num", "repeat-split"} -> "T"
+    [] id \in {"full-plus", "full-minus", "sub-absent", "typed-wrong", "sub-wrong", "num-plus", "num-ge", "num-and-plus", "repeat-split-wrong",
                "full-plus/B", "sub-absent/B"} -> "F"
     [] id = "empty" -> B4(F0 = {})
     [] OTHER -> "-"
